@@ -39,6 +39,7 @@ var vKeys = map[int]vKey{
 	5: {"id5", "bogus-cipher-9000", "secret-five"},
 	6: {"id6", "aes-192-gcm", "secret-four"},
 	7: {"id7", "aes-256-gcm", "secret-one"}, // the secret of key 1 under another cipher: a different key
+	8: {"id1", "aes-256-gcm", "secret-one"}, // key 1 (same id, same secret) under another cipher: what a reload that changes a key's cipher loads
 }
 var vClassKey = map[int]int{1: 1, 2: 2, 3: 3, 4: 6, 5: 7}
 var vIDNum = map[string]int{"id1": 1, "id2": 2, "id3": 3, "id4": 4, "id5": 5, "id6": 6, "id7": 7}
